@@ -38,7 +38,7 @@ static void run_trace_header(int argc, char **argv) {
         else if (!strcmp(argv[i], "default")) dflt = 1;
         else if (!strncmp(argv[i], "plan=", 5)) vf_set_plan(argv[i] + 5);
     }
-    enum cc_stat s = dflt ? cc_array_sized_new(L, &H[0]) : cc_array_sized_new_conf(L, &c, &H[0]);
+    enum cc_stat s = VF_OUT(H[0], dflt ? cc_array_sized_new(L, &H[0]) : cc_array_sized_new_conf(L, &c, &H[0]));
     if (s != CC_OK) H[0] = NULL;
     printf("new %s", vf_stat(s)); obs();
 }
@@ -81,11 +81,12 @@ static void run_op(int argc, char **argv) {
     int h, d, h2; enum cc_stat s; uint8_t *p1 = NULL, *p2 = NULL;
     if (argc >= 4 && !strcmp(argv[1], "=")) {
         if ((d = hnum(argv[0], 'h')) >= 0 && (h = hnum(argv[2], 'h')) >= 0 && H[h] && !H[d]) {
-            CC_ArraySized *out = NULL; const char *op = argv[3];
+            CC_ArraySized *out = VF_SENT; const char *op = argv[3];
             if (!strcmp(op, "subarray") && argc > 5) s = cc_array_sized_subarray(H[h], vf_num(argv[4]), vf_num(argv[5]), &out);
             else if (!strcmp(op, "copy_shallow")) s = cc_array_sized_copy(H[h], &out);
             else if (!strcmp(op, "filter")) s = cc_array_sized_filter(H[h], pred_even, &out);
             else { printf("badop"); return; }
+            s = vf_out_check(s, (void**)&out);
             if (s == CC_OK) H[d] = out;
             printf("%s %s", op, vf_stat(s)); obs(); return;
         }
